@@ -116,6 +116,15 @@ func clusterRun(ctx *vc.Ctx, faults bool) {
 	default:
 		cfgs = []cfg{{3, 3, 7, true}, {2, 4, 10, false}, {3, 3, 6, false}}
 	}
+	if !faults {
+		scn, depth := "observer;T=2", 7
+		if ctx.Thorough() {
+			scn, depth = "observer;T=3", 9
+		}
+		ctx.BFS(vc.BFSOpts{Scenario: scn, MaxDepth: depth}, func(hist []string, v vc.BFSViolation) {
+			ctx.Violation(scn, v.Signature, fmt.Sprintf("history %v\n%s", hist, v.Message), map[string]interface{}{"scenario": scn, "history": hist})
+		})
+	}
 	for _, c := range cfgs {
 		f := 0
 		if faults {
